@@ -27,7 +27,7 @@ counter-examples below).  Proved: the statement for all records satisfying the e
 
 /-- **Round trip**: for every well-formed record — any number of points ≥ 2, any mask, any coordinates (or none),
 any number of rotations per point, any properties of any dtype and shape, any phases with or without space/point
-group, up to ten atoms — the writer succeeds and the reader returns the record; the properties come back as the
+group, any number of atoms — the writer succeeds and the reader returns the record; the properties come back as the
 same set of (name, array) pairs (HDF5 presents them in alphabetical order). -/
 theorem read_write_partial (ni : PhaseRec) (e : Derived) (m : MapRec) (hwf : H5WF genTables ni m)
     (hid : arrOK e.idArr) :
@@ -72,12 +72,19 @@ theorem numbered_children_order :
     Key.le (.n 10) (.n 2) = true ∧ Key.le (.n 2) (.n 10) = false :=
   ⟨keyLe_small, keyLe_ten_two⟩
 
-/-- which space groups survive: `Phase(space_group = n, point_group = <derived name>)` reproduces the pair for
-every n except 3 … 9 (kernel-decided on the generated tables) -/
+/-- every space group survives: `Phase(space_group = n, point_group = None)` (what the reader calls since
+99d4b72) gives the space group and its derived point group, for n = 1 … 230 (kernel-decided on the generated
+tables) -/
 theorem space_groups_surviving :
+    ((List.range' 1 230).all fun n =>
+      mkPhase genTables (some n) none == some (some n, sgPG genTables n)) = true :=
+  all_space_groups_survive
+
+/-- pre-fix reader (`Phase(space_group = n, point_group = <stored name>)`): failed for exactly 3 … 9 -/
+theorem space_groups_surviving_prefix :
     ((List.range' 1 230).filter fun n =>
       !(mkPhase genTables (some n) (sgPG genTables n) == some (some n, sgPG genTables n))) = [3, 4, 5, 6, 7, 8, 9] :=
-  bad_space_groups
+  bad_space_groups_prefix
 
 /-! ### proved counter-examples: every conjunct of `H5WF` is needed -/
 
@@ -131,7 +138,7 @@ example : H5WF genTables niPhase (lineMap 3 phaseA [⟨S "iq", ⟨f64, [3], [7, 
     have : p = phaseA := by simpa [lineMap] using hp
     subst this
     exact { name := by decide, color := by decide, abc := by decide, baserot := by decide,
-            atoms := (by intro a ha; cases ha), natoms := (by decide),
+            atoms := (by intro a ha; cases ha),
             pgName := (by intro g hg; cases hg; decide +kernel), sym := (by decide +kernel) }
   phases_sorted := by decide
   phases_consistent := by decide +kernel
@@ -155,23 +162,29 @@ def atomI (i : Nat) : AtomRec :=
   { element := S "Al", label := S "", occDt := f64, occ := 1, xyz := ⟨f64, [3], [i, 0, 0]⟩,
     u := ⟨f64, [3, 3], [0, 0, 0, 0, 0, 0, 0, 0, 0]⟩ }
 
-/-- **Counter-example (finding)**: with eleven atoms the atoms come back in the order 0, 1, 10, 2, 3, … -/
-theorem eleven_atoms_counterexample :
+/-- with eleven atoms the atoms come back in their order (fixed in 055282c: sorted by `int(key)`) … -/
+example :
     (cycle 3 (lineMap 3 { phaseA with atoms := (List.range 11).map atomI } [])).map
         (fun m => m.phases.map fun p => p.atoms.map fun a => a.xyz.vals.head?)
-      = some [[some 0, some 1, some 10, some 2, some 3, some 4, some 5, some 6, some 7, some 8, some 9]] := by
+      = some [(List.range 11).map fun i => some (i : Int)] := by
   decide +kernel
 
-/-- **Counter-example (finding)**: space group 5 (C2, point group "2"): the stored name "2" is an alias of 2/m,
-so the phase comes back with point group 2/m and without space group. -/
-theorem space_group_5_counterexample :
-    (cycle 3 (lineMap 3 { phaseA with sg := some 5, pg := some (S "2") } [])).map
-        (fun m => m.phases.map fun p => (p.sg, p.pg))
-      = some [(none, some (S "2/m"))] := by decide +kernel
+/-- … whereas the pre-fix reader (`atomsInFileOrderPreFix`: atoms in the order the file lists `atoms/<i>`)
+returned 0, 1, 10, 2, 3, … -/
+theorem eleven_atoms_prefix_counterexample :
+    (atomsInFileOrderPreFix (sortK (roundItems ((enumFrom 0 ((List.range 11).map atomI)).map
+        fun (ia : Nat × AtomRec) => (Key.n ia.1, atom2dict ia.2))))).map (fun l => l.map fun a => a.xyz.vals.head?)
+      = some [some 0, some 1, some 10, some 2, some 3, some 4, some 5, some 6, some 7, some 8, some 9] := by
+  decide +kernel
 
-/-- **Counter-example (finding)**: space group 6 (Pm, point group "m"): loading raises. -/
-theorem space_group_6_counterexample :
-    cycle 3 (lineMap 3 { phaseA with sg := some 6, pg := some (S "m") } []) = none := by decide +kernel
+/-- space groups 5 (C2, point group "2") and 6 (Pm, point group "m") come back unchanged (fixed in 99d4b72;
+before, "2" was resolved as the alias of 2/m and "m" raised: `space_groups_surviving_prefix`) -/
+example :
+    (cycle 3 (lineMap 3 { phaseA with sg := some 5, pg := some (S "2") } [])).map
+        (fun m => m.phases.map fun p => (p.sg, p.pg)) = some [(some 5, some (S "2"))] ∧
+    (cycle 3 (lineMap 3 { phaseA with sg := some 6, pg := some (S "m") } [])).map
+        (fun m => m.phases.map fun p => (p.sg, p.pg)) = some [(some 6, some (S "m"))] := by
+  decide +kernel
 
 /-- **Counter-example**: a phase of the list without points is dropped by `CrystalMap.__init__`. -/
 theorem unused_phase_counterexample :
